@@ -280,6 +280,39 @@ def gen_case(rng, focus, nops):
     return {"cfg": {"qcap": qcap, "full": full}, "ops": ops}
 
 
+def sweep_cases():
+    """the router table, systematically: every kind of request pending twice (two keys; the same hash under every
+    kind that takes that sort of hash, so that a response routed by the wrong type or without its key is visible),
+    then one server message, twice.  One case per message of every type / sub-type, with and without hash."""
+    def key_of(kind, alt):
+        if kind == 5:
+            return 20 if alt else 10
+        if kind in BLOCK_KINDS:
+            return 103 if alt else 102
+        if kind == 7:
+            return 0
+        return 3 if alt else 2
+    msgs = [["msg", "headers", 10, 2], ["msg", "headers", 30, 1], ["msg", "header", 102], ["msg", "header", 2], ["msg", "fee"],
+            ["msg", "basetx", 2], ["msg", "basetx", 4]]
+    for kind in range(1, 13):
+        k = key_of(kind if kind <= 10 else 1, False)
+        if kind == 7:
+            k = 2
+        msgs += [["msg", "accept", kind, k], ["msg", "accept", kind, -1],
+                 ["msg", "reject", kind, k, 3], ["msg", "reject", kind, -1, 4]]
+    cases = []
+    for m in msgs:
+        ops = [["session"], ["accept", 0, 0, 0, 1], ["ready", 1]]
+        for alt in (True, False):
+            for kind in range(1, 11):
+                if kind == 7 and alt:
+                    continue
+                ops.append(["pend", kind, key_of(kind, alt)])
+        ops += [m, m, ["deq"], ["deq"]]
+        cases.append({"cfg": {"qcap": 100, "full": 1}, "ops": ops, "origin": "router-sweep"})
+    return cases
+
+
 def fix_await(case):
     """await on a direct (non-call) handle is not an operation of the harness: drop such ops"""
     kinds = {}
@@ -299,7 +332,7 @@ def fix_await(case):
     return case
 
 
-def build_suite(tier, rng, replay, focus, corpus, monitors, n_quick, n_thorough, salt):
+def build_suite(tier, rng, replay, focus, corpus, monitors, n_quick, n_thorough, salt, sweep=False):
     cases = []
     if replay:
         cases.append({"cfg": replay["cfg"], "ops": replay["ops"], "origin": "replay"})
@@ -310,6 +343,8 @@ def build_suite(tier, rng, replay, focus, corpus, monitors, n_quick, n_thorough,
                 if f.endswith(".json"):
                     j = json.load(open(os.path.join(d, f)))
                     cases.append({"cfg": j["cfg"], "ops": j["ops"], "origin": "corpus/%s/%s" % (corpus, f)})
+        if sweep:
+            cases += sweep_cases()
         n = n_quick if tier == "quick" else n_thorough
         for i in range(n):
             r = rng.fork(salt + i)
